@@ -66,7 +66,7 @@ class Volume
 
      std::optional<SectorBuffer> read_block(unsigned long lba) override
        {
-	 if (lba > len_)
+	 if (lba >= len_)
 	   return std::nullopt;
 	 return underlying_.read_block(origin_ + lba);
        }
